@@ -2,10 +2,16 @@ package main
 
 import (
 	"fmt"
+	"net"
 	"sync"
+	"sync/atomic"
 	"time"
 
+	"github.com/gorilla/websocket"
 	"github.com/lorenzodonini/ocpp-go/ocpp"
+	"github.com/lorenzodonini/ocpp-go/ocpp1.6/core"
+	"github.com/lorenzodonini/ocpp-go/ocppj"
+	"github.com/lorenzodonini/ocpp-go/ws"
 )
 
 // Monitor c16_restart (C16 / C01, directed, on the implementation): a charge point / charging station on a fake
@@ -19,6 +25,16 @@ import (
 // session, never dropped the old callbacks, and r3's response went to r2's callback.
 
 func init() {
+	roundsProp["c16_stopsend"] = "C16"
+	rounds["c16_stopsend"] = func(seed int64, i int) roundResult {
+		var res roundResult
+		ver := []string{"R16", "R201"}[i%2]
+		if sig, what := c16StopVsSend(ver, i%4 >= 2); sig != "" {
+			res.Violations = append(res.Violations, Violation{Property: "C16", Sig: sig, What: what})
+		}
+		res.Events = 1
+		return res
+	}
 	monitors["c16_restart"] = func(seed int64, tier string) interface{} {
 		rep := &Report{Monitor: "c16_restart", Rule: "per protocol version: charge point / charging station on a fake websocket client; the callback of r1 is held at a gate (the callback goroutine is busy), r2 is outstanding, Stop, Start, gate released, r3 sent and answered: r2's callback must not fire after Stop, r3's response reaches r3's callback; repeated with the gate released before the restart (callback goroutine idle at Stop); distinct = runs", Stats: map[string]interface{}{}}
 		reps := 3
@@ -49,8 +65,200 @@ func init() {
 				}
 			}
 		}
+		// Stop releases every caller blocked in a synchronous request (not just one)
+		for _, ver := range []string{"R16", "R201"} {
+			for k := 0; k < reps; k++ {
+				rep.Evaluations++
+				if sig, what := c16BlockedCallers(ver); sig != "" && sig != "harness" {
+					dup := false
+					for _, v := range rep.Violations {
+						if v.Sig == sig {
+							dup = true
+						}
+					}
+					if !dup {
+						rep.Violations = append(rep.Violations, Violation{Property: "C16", Sig: sig, What: what,
+							Replay: map[string]interface{}{"version": ver, "steps": []string{"start", "3 goroutines call the blocking SendRequest (one CALL written, two queued)", "Stop", "every caller must return with an error within 2 s"}}})
+					}
+				} else if sig == "" {
+					rep.Distinct++
+				}
+			}
+		}
+		// Stop racing concurrent sends, with and without an immediate restart: rounds in their own process (a panic of
+		// the library, or a wedged process, is reported by the parent)
+		for _, r := range runRounds("c16_stopsend", seed, reps*16, 8) {
+			rep.Evaluations++
+			if r.Events > 0 && len(r.Violations) == 0 {
+				rep.Distinct++
+			}
+			if r.Events == 0 && len(r.Violations) == 0 {
+				r.Violations = append(r.Violations, Violation{Property: "C16", Sig: "stop/send-wedged", What: "Stop racing three goroutines that call SendRequestAsync in a loop: the round did not finish within 90 s (a call never returned)"})
+			}
+			for _, v := range r.Violations {
+				dup := false
+				for _, w := range rep.Violations {
+					if w.Sig == v.Sig {
+						dup = true
+					}
+				}
+				if !dup {
+					if v.Replay == nil {
+						v.Replay = map[string]interface{}{"steps": []string{"start", "3 goroutines call SendRequestAsync in a loop", "Stop (and, in half of the rounds, Start at once)", "no call may panic or hang; after the restart a request is accepted"}}
+					}
+					rep.Violations = append(rep.Violations, v)
+				}
+			}
+		}
+		// Stop while the websocket client is in its reconnection loop: no connection afterwards
+		for k := 0; k < reps; k++ {
+			rep.Evaluations++
+			if sig, what := c16StopDuringReconnect(); sig != "" && sig != "harness" {
+				dup := false
+				for _, v := range rep.Violations {
+					if v.Sig == sig {
+						dup = true
+					}
+				}
+				if !dup {
+					rep.Violations = append(rep.Violations, Violation{Property: "C16", Sig: sig, What: what,
+						Replay: map[string]interface{}{"steps": []string{"ocppj.Client on the real ws.Client, raw server", "server stops accepting and drops the connection", "client in its reconnection loop", "ocppj.Client.Stop()", "server accepts again", "no connection must arrive within 400 ms (back-off 30 ms)"}}})
+				}
+			} else if sig == "" {
+				rep.Distinct++
+			}
+		}
 		return rep
 	}
+}
+
+// c16StopVsSend: Stop racing concurrent sends (and a restart right after): no call panics, and the restarted endpoint works
+func c16StopVsSend(ver string, restart bool) (sig, what string) {
+	e := newEndpoint(ver, "cp", epOpts{timeout: 5 * time.Second})
+	var panics int32
+	var firstPanic atomic.Value
+	stopSend := make(chan struct{})
+	var wg sync.WaitGroup
+	for k := 0; k < 3; k++ {
+		wg.Add(1)
+		go func() {
+			defer wg.Done()
+			for {
+				select {
+				case <-stopSend:
+					return
+				default:
+				}
+				// (no recover: a panic of the library kills this round's process and is reported by the parent)
+				_ = e.sendAsync("", dataTransferReq(ver), func(ocpp.Response, error) {})
+			}
+		}()
+	}
+	time.Sleep(300 * time.Microsecond)
+	e.stop()
+	if restart {
+		e.start()
+	}
+	time.Sleep(300 * time.Microsecond)
+	close(stopSend)
+	wg.Wait()
+	if n := atomic.LoadInt32(&panics); n > 0 {
+		return "stop/send-panics:" + ver, fmt.Sprintf("%s: %d calls of SendRequestAsync racing Stop panicked: %v", ver, n, firstPanic.Load())
+	}
+	if restart {
+		// the restarted endpoint is usable
+		time.Sleep(5 * time.Millisecond)
+		e.takeWrites()
+		var got int32
+		err := e.sendAsync("", dataTransferReq(ver), func(r ocpp.Response, err error) { atomic.AddInt32(&got, 1) })
+		if err != nil {
+			e.stop()
+			return "restart/send-rejected:" + ver, fmt.Sprintf("%s: a request sent after Stop + Start (racing senders) was rejected: %v", ver, err)
+		}
+		e.stop()
+	}
+	return "", ""
+}
+
+func c16BlockedCallers(ver string) (sig, what string) {
+	e := newEndpoint(ver, "cp", epOpts{timeout: 30 * time.Second})
+	var returned int32
+	var wg sync.WaitGroup
+	n := 3
+	for k := 0; k < n; k++ {
+		wg.Add(1)
+		go func() {
+			defer wg.Done()
+			_, _ = e.sendSync(dataTransferReq(ver))
+			atomic.AddInt32(&returned, 1)
+		}()
+	}
+	if w := e.waitWrites(1, time.Second); len(w) < 1 {
+		return "harness", ""
+	}
+	time.Sleep(10 * time.Millisecond) // the other callers are queued and blocked by now
+	e.stop()
+	done := make(chan struct{})
+	go func() { wg.Wait(); close(done) }()
+	select {
+	case <-done:
+		return "", ""
+	case <-time.After(2 * time.Second):
+		return "stop/callers-still-blocked:" + ver, fmt.Sprintf("%s: %d of %d callers blocked in the synchronous SendRequest were released by Stop (the others are blocked for ever: the dispatcher is stopped, no timeout will fire)", ver, atomic.LoadInt32(&returned), n)
+	}
+}
+
+func c16StopDuringReconnect() (sig, what string) {
+	srv := &rawServer{muted: map[*websocket.Conn]bool{}}
+	if err := srv.up(); err != nil {
+		return "harness", ""
+	}
+	defer srv.down()
+	url := fmt.Sprintf("ws://127.0.0.1:%d/cp1", srv.port)
+	cl := ws.NewClient()
+	cl.SetRequestedSubProtocol("ocpp1.6")
+	cfg := ws.NewClientTimeoutConfig()
+	cfg.RetryBackOffWaitMinimum = 30 * time.Millisecond
+	cfg.RetryBackOffRandomRange = 0
+	cfg.RetryBackOffRepeatTimes = 1
+	cfg.HandshakeTimeout = time.Second
+	cfg.PingPeriod, cfg.PongWait = 0, 0
+	cl.SetTimeoutConfig(cfg)
+	d := ocppj.NewDefaultClientDispatcher(ocppj.NewFIFOClientQueue(0))
+	c := ocppj.NewClient("cp1", cl, d, nil, core.Profile)
+	var fails int32
+	errs := cl.Errors()
+	go func() {
+		for range errs {
+			atomic.AddInt32(&fails, 1)
+		}
+	}()
+	if err := c.Start(url); err != nil {
+		return "harness", ""
+	}
+	waitCond(time.Second, func() bool { return srv.raw() >= 1 })
+	srv.down()
+	if conn := srv.last(); conn != nil {
+		if tc, ok := conn.UnderlyingConn().(*net.TCPConn); ok {
+			_ = tc.SetLinger(0)
+		}
+		_ = conn.Close()
+	}
+	// the client is in its reconnection loop once an attempt has failed
+	if !waitCond(2*time.Second, func() bool { return atomic.LoadInt32(&fails) >= 1 }) {
+		c.Stop()
+		return "harness", ""
+	}
+	c.Stop()
+	n0 := srv.raw()
+	if err := srv.up(); err != nil {
+		return "harness", ""
+	}
+	time.Sleep(400 * time.Millisecond)
+	if n := srv.raw(); n > n0 {
+		return "stop/reconnected-after-stop", fmt.Sprintf("an ocppj client stopped during its reconnection loop opened %d new connection(s) after Stop had returned", n-n0)
+	}
+	return "", ""
 }
 
 func c16RestartRun(ver string, busy bool) (sig, what string, steps []string) {
